@@ -327,3 +327,77 @@ def constant_trees(seed, n):
     """variable-free trees (constant folding, also folding that fails)"""
     return random_trees(seed, n, depth=3, names=("x",), consts=[-2, -1, 0, 1, 2, 3, H]) and \
         [t for t in random_trees(seed, n * 6, depth=3, names=("x",)) if not variables(t)][:n]
+
+
+# ---------------------------------------------------------------- pools for the state machine (C06 / C09 / C10)
+class HeapB:
+    """build a DAG heap by hand: every call creates ONE node (one Python object); children are indices"""
+    def __init__(self):
+        self.h = []
+
+    def _add(self, n):
+        self.h.append(n)
+        return len(self.h)
+
+    def var(self, x): return self._add({"op": "Variable", "name": x})
+    def const(self, n, d=1): return self._add({"op": "Constant", "val": q(n, d)})
+    def nary(self, op, *a): return self._add({"op": op, "args": list(a)})
+    def bin(self, op, l, r): return self._add({"op": op, "l": l, "r": r})
+    def un(self, op, a): return self._add({"op": op, "a": a})
+    def kun(self, op, a, k): return self._add({"op": op, "a": a, "k": k})
+    def bun(self, op, a, b): return self._add({"op": op, "a": a, "b": b})
+
+
+def P(**kw):
+    return {k: (q(*v) if isinstance(v, tuple) else q(v)) for k, v in kw.items()}
+
+
+def heap_vars(h, i):
+    n = h[i - 1]
+    if n["op"] == "Variable":
+        return {n["name"]}
+    if n["op"] == "Constant":
+        return set()
+    ks = n["args"] if "args" in n else ([n["l"], n["r"]] if "l" in n else [n["a"]])
+    out = set()
+    for k in ks:
+        out |= heap_vars(h, k)
+    return out
+
+
+def api_pools():
+    pools = []
+
+    def pool(name, b, roots, points, vars_, nums=(0, 2, -1), switch=None):
+        if switch is None:
+            switch = [{"r": roots[-1], "v": "x"}, {"r": roots[0], "v": ("" if len(heap_vars(b.h, roots[0])) <= 1 else "y")}]
+        pools.append({"name": name, "heap": b.h, "roots": roots, "points": points, "vars": vars_, "nums": [q(n) for n in nums], "switch": switch})
+
+    # 1. the repository's reuse test, extended: w = x^2 ; z = (w+1)/w ; r = (1/x)*y ; s = z + r
+    b = HeapB(); x = b.var("x"); y = b.var("y"); w = b.kun("NthPower", x, 2); one = b.const(1)
+    z = b.bin("Divide", b.nary("Add", w, one), w); r = b.nary("Multiply", b.un("Reciprocal", x), y); s = b.nary("Add", z, r)
+    pool("reuse", b, [w, z, s], [P(x=2, y=1), P(x=-1, y=3), P(x=0, y=1), P(x=(1, 2), y=2)], ["x", "y", "zz"])
+    # 2. Logarithm / Reciprocal under shared nodes: calls that fail half-way
+    b = HeapB(); x = b.var("x"); sq = b.nary("Multiply", x, x); m = b.bin("Minus", sq, b.const(2)); u = b.bun("Logarithm", m, q(2)); v = b.nary("Multiply", m, m)
+    t = b.nary("Add", sq, b.un("Reciprocal", m))
+    pool("halfway", b, [sq, u, v, t], [P(x=2), P(x=1), P(x=0), P(x=-2)], ["x", "zz"])
+    # 3. Power with a base that evaluates to one; undefined exponent
+    b = HeapB(); x = b.var("x"); rc = b.un("Reciprocal", x); p1 = b.bin("Power", b.const(1), rc); t = b.nary("Add", p1, x)
+    p2 = b.bin("Power", b.nary("Multiply"), b.bun("Logarithm", x, q(2)))
+    pool("baseone", b, [p1, t, p2], [P(x=0), P(x=2), P(x=-1)], ["x", "zz"])
+    # 4. a quotient whose symbolic partials need many rewrite steps, two variables
+    b = HeapB(); x = b.var("x"); y = b.var("y"); pr = b.nary("Multiply", x, y); sm = b.nary("Add", x, y); z = b.bin("Divide", pr, sm); z2 = b.kun("NthPower", z, 2)
+    pool("quotient", b, [z, z2, sm], [P(x=1, y=1), P(x=2, y=-2), P(x=0, y=2), P(x=-1, y=(1, 2)), P(x=1)], ["x", "y"])
+    # 5. variable-free parts (constant folding, failing folds) next to a variable
+    b = HeapB(); x = b.var("x"); c = b.nary("Add", b.const(2), b.const(3)); d = b.un("Reciprocal", b.bin("Minus", c, b.const(5))); e = b.nary("Multiply", c, x)
+    f = b.nary("Add", e, d); g = b.bin("Divide", e, c)
+    pool("closed", b, [c, e, f, g], [P(x=1), P(x=0), P(x=-2)], ["x", "zz"])
+    # 6. structurally equal but DISTINCT children, and an n-ary node whose later sibling fails after an earlier composite was cached
+    b = HeapB(); x = b.var("x"); y = b.var("y"); e1 = b.bun("Exponential", x, q(2)); e2 = b.bun("Exponential", x, q(2)); a = b.nary("Add", e1, e2)
+    mm = b.nary("Multiply", x, x); lg = b.bun("Logarithm", y, q(2)); zz = b.nary("Add", mm, lg); ww = b.nary("Multiply", mm, b.un("Reciprocal", y))
+    pool("siblings", b, [a, zz, ww], [P(x=0, y=1), P(x=1, y=2), P(x=3, y=0), P(x=2, y=1)], ["x", "y"])
+    # 7. roots (even / odd) and a sum of a variable with an undefined term that does not mention it
+    b = HeapB(); x = b.var("x"); y = b.var("y"); s2 = b.kun("NthRoot", x, 2); s3 = b.kun("NthRoot", x, 3); tt = b.nary("Add", x, b.bun("Logarithm", y, q(2)))
+    qq = b.nary("Multiply", s3, s3, s3)
+    pool("roots", b, [s2, qq, tt], [P(x=4, y=1), P(x=-8, y=2), P(x=0, y=1), P(x=1, y=-1), P(x=1, y=0)], ["x", "y"])
+    return pools
